@@ -283,3 +283,11 @@ Section WithKv.
       rewrite Eh. symmetry. apply sign_parity.
   Qed.
 End WithKv.
+
+(* the standard valuation is admissible (non-vacuity of [kv_ok]) *)
+Lemma ev_kv_ok v : kv_ok (ev v).
+Proof.
+  split.
+  - intros k H. destruct k; simpl in H; try discriminate. simpl. rewrite H. reflexivity.
+  - intros c d _. reflexivity.
+Qed.
